@@ -30,7 +30,11 @@ META = {
             "calls unmap (read off the source), every way out of such a body on which the client was registered "
             "runs the unmap, and an early return between the two is kept as a refuted counter-model; a stream with "
             "a SideToken callback that answers ok or an error over time and endpoints with and without Siding reads "
-            "the registry and makes a front connection after every connection, also one the server refused.",
+            "the registry and makes a front connection after every connection, also one the server refused. "
+            "Notifications under every callback configuration (both, only OnConnect, only OnDisconnect, neither): one "
+            "disconnect per ended connection iff OnDisconnect is configured, with session 0 without OnConnect; the "
+            "guard of the deferred disconnect call is read off the source, a defer nested in the OnConnect condition "
+            "is kept as a refuted counter-model, and that stream runs under all four configurations.",
     "note": "Trusted: Coq kernel + vm_compute; translator gen/sni_rpc.go; harness/cmd/c15 + sniproxy/verif_rpc.go + "
             "verif_point.go (one schedule point after ep.serve()); sync.Mutex, the websocket upgrade and the "
             "background old.Close() are single abstract steps; the reason a serve loop ends is nondeterministic in "
